@@ -333,12 +333,16 @@ def case(ctx, rng, idx):
     if _state["pending"] or polled:
         return
     if exc is not None:
+        # an ordinary Python exception is not a memory-safety event (whether the call should have been accepted is C11's
+        # subject); SystemError / MemoryError / ValueError("... NULL ...") come from the C boundary and are
         ctx.exc["%s@%s" % (type(exc).__name__, cfg["fn"])] += 1
-        ctx.violation("exception:%s@%s" % (type(exc).__name__, cfg["fn"]) + (":stale-model" if cfg["stale"] else ""),
-                      "%s raised %r on a documented-valid call" % (cfg["fn"], exc), w)
+        ctx.cat("python-exception:" + type(exc).__name__)
+        if isinstance(exc, (SystemError, MemoryError)):
+            ctx.violation("c-boundary-exception:%s@%s" % (type(exc).__name__, cfg["fn"]), "%s raised %r" % (cfg["fn"], exc), w)
         return
     # results must still be well formed (memory corruption often shows up as garbage states/values)
-    if cfg["stale"]:
+    if cfg["stale"] or cfg["class"] == "raw-repeated-labels":
+        # (raw keys whose terms cancel leave the labelled model built from them with stale variables as well)
         dom = (1, -1) if A.is_spin(cfg["fn"]) else (0, 1)
         for r in res:
             if not set(cfg["true_vars"]) <= set(r.state) or any(v not in dom for v in r.state.values()) or \
